@@ -348,7 +348,28 @@ func (p *Pruner) applyTimeFloor(standardFloor uint64) uint64 {
 	if p.minAge == 0 {
 		return standardFloor
 	}
+	p.lowerSampleAfterReorg()
 	return min(p.latestSampledHeight, standardFloor)
+}
+
+// lowerSampleAfterReorg moves latestSampledHeight down while the block
+// below it is younger than minAge. On an unchanged chain the cutoff only
+// advances, so that block is always older; after a reorg the heights below
+// the sample can hold younger blocks, which the sample (and sampleHeight,
+// which uses it as its lower bound) would otherwise never see.
+func (p *Pruner) lowerSampleAfterReorg() {
+	height, err := core.GetChainHeight(p.database)
+	if err != nil {
+		return
+	}
+	p.latestSampledHeight = min(p.latestSampledHeight, height)
+	for p.latestSampledHeight > 0 {
+		header, err := core.GetBlockHeaderByNumber(p.database, p.latestSampledHeight-1)
+		if err != nil || !withinTimeWindow(header.Timestamp, p.minAge) {
+			return
+		}
+		p.latestSampledHeight--
+	}
 }
 
 func (p *Pruner) onNewBlock(ctx context.Context, block *core.Block) error {
